@@ -216,7 +216,7 @@ theorem seekWith_gen (step : Int → Bool) (fwd : Bool) (cmp : K → K → Int) 
     obtain ⟨p, f⟩ := r
     simp only [hg, if_true]
     by_cases hst : step (cmp k p.k) = true
-    · simp only [hst, if_true]
+    · simp only [hst, seekStepCalls_true, Bool.and_true, if_true]
       cases fwd with
       | true => simp only [if_true, stepFwd]; split <;> rfl
       | false => simp only [Bool.false_eq_true, if_false, stepBwd]; split <;> rfl
